@@ -1,7 +1,7 @@
 """C10 — untyped values survive annotate, encode and decode at their type (structural clauses)."""
 import re
 
-from facts import AnchorMissing, callee, expr_path, lit_value, nodes, pat_alternatives, pat_head, unblock, walk
+from facts import AnchorMissing, callee, expr_path, lit_value, nodes, pat_alternatives, pat_head, pat_variants, unblock, walk
 from shared import TI, Matrix, arm_rows, is_err_body, method_calls, the_match, variant_paths
 
 TITLE = ("C10: the annotation table accepts exactly the pairs (value constructor, type constructor) the property allows, "
@@ -91,6 +91,18 @@ PANIC_REASONS = {
     "value_ty | index(&Vec<IDLValue>)[lit]#0":
         "vec[0] in the else branch of `if vec.is_empty()`",
 }
+
+
+def walk_pat(p):
+    if isinstance(p, dict):
+        yield p
+        for k_ in ("sub",):
+            if isinstance(p.get(k_), dict):
+                yield from walk_pat(p[k_])
+        for s_ in p.get("subs") or []:
+            yield from walk_pat(s_)
+        for f_ in p.get("fields") or []:
+            yield from walk_pat(f_[1])
 
 
 def run(chk, facts, tier, only=None):
@@ -359,7 +371,42 @@ def run(chk, facts, tier, only=None):
                            f"error must not abort the process", where=f"{h['span']['file']}:{st['ln']}", ok_detail=why)
         chk.ok("panic-sites-inventoried", f"{total} panic-capable construct(s) on the annotate / untyped-encode path, all with a reviewed reason")
 
-    for rid, desc, fn in (("C10.R5", "no unreviewed panic site on the annotate / untyped-encode path", r5),
+    def r11():
+        """Untyped decoding of a record (IDLValueVisitor::visit_map) drops the entries the decoder produces for wire fields the expected type
+        does not have; the decoder marks those with a made-up key. A key is arbitrary text, so the marker alone cannot identify them: the
+        arm that drops an entry must also look at the entry's value (a skipped field is always decoded at `reserved`)."""
+        h = c.method(r"value::IDLValueVisitor$", "visit_map", r"de::Visitor$")
+        chk.analysed(h["key"])
+        drops = []
+        for m in nodes(h["body"], "match"):
+            if m.get("src") not in (None, "Normal"):
+                continue
+            for a in m["arms"]:
+                b = unblock(a["body"])
+                if b.get("k") == "continue" and any("IDLValue::Text" in (v or "") for v in pat_variants(a["pat"])):
+                    drops.append((m, a))
+        if not drops:
+            chk.ok("untyped-record:no-field-dropped-by-name", "visit_map drops no entry by its key", nontrivial=False)
+            return
+        # the binder(s) of the entry's value: `while let Some((key, value)) = visitor.next_entry()?`
+        val_names = set()
+        for le in nodes(h["body"], "let"):
+            if any(x.get("k") == "mcall" and x["m"] == "next_entry" for x in walk(le["init"])):
+                subs = [p_ for p_ in walk_pat(le["pat"]) if p_.get("k") == "tuple"]
+                if subs and len(subs[0]["subs"]) == 2 and subs[0]["subs"][1].get("k") == "bind":
+                    val_names.add(subs[0]["subs"][1]["n"])
+        for m, a in drops:
+            g = a.get("guard")
+            looks_at_value = g is not None and any(x.get("k") == "path" and (x.get("res") or {}).get("kind") == "Local" and x["res"]["path"] in val_names for x in walk(g))
+            scr_has_value = any(x.get("k") == "path" and (x.get("res") or {}).get("kind") == "Local" and x["res"]["path"] in val_names for x in walk(m["scrut"]))
+            chk.expect(looks_at_value or scr_has_value, "untyped-record:no-field-dropped-by-name",
+                       "IDLValueVisitor::visit_map drops every record entry whose key is the text `_` (the marker the decoder uses for skipped wire fields) "
+                       "without looking at the entry's value: a field that really is named `_` is dropped too — `record { \"_\" = 1; a = 2 }` decoded "
+                       "at its own type comes back as `record { a = 2 }`", where=f"{h['span']['file']}:{a.get('ln')}",
+                       ok_detail="the dropping arm also tests the entry's value")
+
+    for rid, desc, fn in (("C10.R11", "untyped record decoding drops only the decoder's skipped-field entries", r11),
+                          ("C10.R5", "no unreviewed panic site on the annotate / untyped-encode path", r5),
                           ("C10.R1", "annotation accepts exactly the allowed (value, type) constructor pairs, in both parser modes", r1),
                           ("C10.R2", "value constructor / type / serializer / visitor rows agree", r2),
                           ("C10.R3", "variant index provenance; the annotated value is what gets serialised", r3),
